@@ -122,6 +122,16 @@ pub fn check_batch(piece: Piece, from: Square, to: u64, consumed: usize, others:
             }
         }
     }
+    // every Iterator method on a fresh / partially consumed / exhausted iterator against plain next()
+    {
+        let bits = crate::bridge::fnv(&[to.to_le_bytes().as_slice(), &[consumed as u8, from as u8, piece as u8]].concat());
+        for round in 0..2u32 {
+            let steps = if round == 0 { vec![crate::iterproto::Step::TakeCount(consumed)] } else { crate::iterproto::steps_from(bits, got.len()) };
+            if let Err(e) = crate::iterproto::check(&|| pm.into_iter(), &got, &steps, true) {
+                return Err(fail("C17:iterator-protocol", e));
+            }
+        }
+    }
     let rest = it.count();
     if taken + rest != want.len() {
         return Err(fail("C17:iterator-count", format!("{} taken + {} remaining != {}", taken, rest, want.len())));
@@ -143,7 +153,7 @@ pub fn check_batch(piece: Piece, from: Square, to: u64, consumed: usize, others:
 
 pub fn run(ctx: &Ctx) -> Report {
     let mut rep = Report::new(ctx);
-    rep.rule = "PieceMoves { piece, from, to } for generated (piece in 6 kinds, origin in 64 squares, destination set from a bit-pattern generator with extra weight on ranks 1/8, mixed promotion/non-promotion sets, single bits, empty/full) plus k = number of next() calls already made. Model: destinations ascending, four promotion moves (N,B,R,Q) for a pawn on rank 1/8, one plain move otherwise. Checked: iteration multiset, len(), is_empty(), ExactSizeIterator::len()/size_hint after each of the first k steps, nth() (incl. out of range) against plain next() stepping, and has(m) for ALL 64 destinations x 7 promotion values for the batch origin and two other origins (1344 queries per batch). Non-trivial = pawn batch with a back-rank destination, or partially consumed iterator (k>0 and moves left); distinct by hash of (piece, from, to, k).".into();
+    rep.rule = "PieceMoves { piece, from, to } for generated (piece in 6 kinds, origin in 64 squares, destination set from a bit-pattern generator with extra weight on ranks 1/8, mixed promotion/non-promotion sets, single bits, empty/full) plus k = number of next() calls already made. Model: destinations ascending, four promotion moves (N,B,R,Q) for a pawn on rank 1/8, one plain move otherwise. Checked: iteration multiset, len(), is_empty(), ExactSizeIterator::len()/size_hint after each of the first k steps, nth() (incl. out of range) against plain next() stepping, the iterator protocol (count, last, collect, fold, for_each, nth at and past the end, position, all, skip/step_by, size_hint on the iterator after a short generated program of next/nth/take steps, also exhausted), and has(m) for ALL 64 destinations x 7 promotion values for the batch origin and two other origins (1344 queries per batch). Non-trivial = pawn batch with a back-rank destination, or partially consumed iterator (k>0 and moves left); distinct by hash of (piece, from, to, k).".into();
     rep.assumptions = vec!["the model enumeration is the statement of C17".into()];
     rep.required_classes = vec!["pawn-with-backrank-destination", "pawn-mixed-promotion-and-plain", "non-pawn-with-backrank-destination", "empty-batch", "partially-consumed"];
     let cases = ctx.tier.scale(160_000, 30);
